@@ -90,10 +90,16 @@ func TestWorker(t *testing.T) {
 	for i := from; i < from+count; i++ {
 		fmt.Fprintf(out, "RUN %d\n", i)
 		out.Flush()
+		// wall-clock watchdog: a run that does not end is infrastructure trouble, never a violation
+		wd := time.AfterFunc(5*time.Minute, func() {
+			fmt.Fprintf(os.Stderr, "WATCHDOG: run %d of %s exceeded 5 minutes of wall-clock time\n", i, name)
+			os.Exit(3)
+		})
 		seed := RunSeed(base, uint64(i))
 		plan := sc.Gen(seed, tier)
 		verbose := samples > 0
 		res := RunPlan(t, sc, plan, verbose)
+		wd.Stop()
 		wr := workerRes{I: i, Hash: res.TraceHash, Verdict: res.Verdict, Incon: res.Inconclusive, Viol: res.Violations}
 		wr.Nontrivial = res.Preempts > 0 || res.Cases["nontrivial"] > 0
 		if verbose && wr.Nontrivial {
@@ -519,6 +525,14 @@ func driverMain(prop string) int {
 						break
 					}
 					_ = done
+					if strings.Contains(stderr, "WATCHDOG") {
+						mu.Lock()
+						infra = append(infra, fmt.Sprintf("watchdog: %s run %d did not finish within the wall-clock limit", cur.scen, lastRun))
+						mu.Unlock()
+						next := lastRun + 1
+						cur = chunk{cur.scen, next, cur.from + cur.count - next}
+						continue
+					}
 					confirmed := 0
 					var st2 string
 					for k := 0; k < 2; k++ {
@@ -531,8 +545,15 @@ func driverMain(prop string) int {
 					mu.Lock()
 					if confirmed == 2 {
 						sig := crashSig(st2)
+						// a memory fault or the barrier's own reclamation panic in an internal
+						// goroutine is a memory-safety violation (C04); other crashes belong to
+						// the property under check
+						cprop := def.Prop
+						if strings.HasPrefix(sig, "crash:fault") || strings.Contains(sig, "Unsafe memory reclamation") {
+							cprop = "C04"
+						}
 						viols = append(viols, violRec{Scen: cur.scen, I: lastRun, Crash: true, Stderr: tail(st2, 60),
-							V: Violation{Property: def.Prop, Sig: sig, Detail: firstLines(st2, 3)}})
+							V: Violation{Property: cprop, Sig: sig, Detail: firstLines(st2, 3)}})
 						evals++
 					} else {
 						infra = append(infra, fmt.Sprintf("worker death at %s run %d did not reproduce (%d/2): %v\n%s", cur.scen, lastRun, confirmed, err, tail(stderr, 30)))
